@@ -1,6 +1,9 @@
 use crate::fw::{PropertyDef, Tier};
 
 pub mod common;
+pub mod e2e;
+pub mod pgen;
+pub mod refmodel;
 pub mod gsom;
 pub mod model;
 pub mod numerics;
@@ -12,6 +15,9 @@ pub mod scientific;
 
 pub fn property(id: &str, tier: Tier) -> Option<PropertyDef> {
     match id {
+        "C01" => Some(e2e::property("C01", tier)),
+        "C02" => Some(e2e::property("C02", tier)),
+        "C03" => Some(e2e::property("C03", tier)),
         "C13" => Some(scientific::property(tier)),
         "C14" => Some(model::property(tier)),
         "C08" => Some(population::property(tier)),
